@@ -330,6 +330,15 @@ fn run_case(case: &Value) -> Value {
         "slide_check" => slide_check(case),
         "delta" => delta_case(case),
         "patch" => patch_case(case),
+        "parse_remote" => {
+            let data = bytes_of(&case["data"]);
+            let m = bin_meta::meta::parse_remote_meta_output(&data);
+            let mut o = serde_json::Map::new();
+            for (p, fm) in m {
+                o.insert(p.to_string_lossy().into_owned(), json!([fm.size, fm.mtime]));
+            }
+            json!({"result": Value::Object(o)})
+        }
         "glob_match" => json!({"result": plan::glob_match(case["pat"].as_str().unwrap(), case["text"].as_str().unwrap())}),
         "is_excluded" => {
             let ex: Vec<String> = case["excludes"].as_array().unwrap().iter().map(|s| s.as_str().unwrap().to_string()).collect();
